@@ -40,7 +40,10 @@ type OpB struct {
 	Reply   []byte   `json:"reply,omitempty"`    // pf: what the target answers before it closes
 	TargetC bool     `json:"target_c,omitempty"` // pf: the target closes first (else the agent's REMOVE ends the session)
 	DupOpen bool     `json:"dup_open,omitempty"`
-	Twin    bool     `json:"twin,omitempty"` // pf: two forwards answer before the queue is fetched
+	Stage   int      `json:"stage,omitempty"` // staged: 0 after TCP connect, 1 greeting sent (reply unread), 2 method reply read, 3 half of the request sent, 4 request sent (agent has not answered), 5 agent answered
+	Cmd     string   `json:"cmd,omitempty"`   // staged: kill clear readd list dup-add kill-other
+	Go      bool     `json:"go,omitempty"`    // staged: the client goes on with its next protocol step after the command
+	Twin    bool     `json:"twin,omitempty"`  // pf: two forwards answer before the queue is fetched
 }
 
 type CaseB struct {
@@ -154,7 +157,7 @@ func genB(t *rapid.T) CaseB {
 	c.Ops = append(c.Ops, genConnect(t))
 	for i := 1; i < n; i++ {
 		kind := rapid.SampledFrom([]string{
-			"connect", "c2a", "a2c", "c2a", "a2c", "close", "connect", "answer", "close", "kill", "add", "clear", "list", "pf", "answer", "c2a", "pf",
+			"connect", "c2a", "a2c", "c2a", "a2c", "close", "connect", "answer", "close", "kill", "add", "clear", "list", "pf", "answer", "c2a", "pf", "staged", "staged", "staged",
 		}).Draw(t, "op")
 		op := OpB{Op: kind, Sel: rapid.IntRange(0, 7).Draw(t, "sel")}
 		switch kind {
@@ -162,6 +165,17 @@ func genB(t *rapid.T) CaseB {
 			sel := op.Sel
 			op = genConnect(t)
 			op.Sel = sel
+		case "staged":
+			sel := op.Sel
+			op = genConnect(t)
+			op.Op, op.Sel = "staged", sel
+			op.Cuts = nil
+			if op.Answer == "defer" {
+				op.Answer = "ok"
+			}
+			op.Stage = rapid.IntRange(0, 5).Draw(t, "stage")
+			op.Cmd = rapid.SampledFrom([]string{"kill", "clear", "readd", "kill", "list", "dup-add", "kill-other", "clear"}).Draw(t, "cmd")
+			op.Go = rapid.SampledFrom([]bool{true, true, true, false}).Draw(t, "go_on")
 		case "answer":
 			op.Answer = rapid.SampledFrom([]string{"ok", "ok", "fail"}).Draw(t, "answer")
 			if op.Answer == "fail" {
@@ -212,6 +226,36 @@ type runB struct {
 	f       *fixture
 	clients []*bcli
 	r       verdicts
+	// sockets the agent itself ended (failed connect, CLOSE callback): it needs no close task for them
+	agentEnded map[uint32]bool
+}
+
+func (x *runB) ended(id uint32) {
+	if x.agentEnded == nil {
+		x.agentEnded = map[uint32]bool{}
+	}
+	x.agentEnded[id] = true
+}
+
+// ledger: over the whole history, every socket the agent was told to open (CONNECT task) is
+// still registered, or the agent ended it itself, or a CLOSE task for it follows in the queue.
+func (x *runB) ledger() *core.Violation {
+	for i, t := range x.f.log {
+		if t.Sub != scConnect || x.agentEnded[t.ID] || x.f.hasSocket(t.ID) {
+			continue
+		}
+		closed := false
+		for _, u := range x.f.log[i+1:] {
+			if u.Sub == scClose && u.ID == t.ID {
+				closed = true
+				break
+			}
+		}
+		if !closed {
+			return core.V("b|ledger|connect-task-without-close", "the agent was handed a connect task for socket %08x; that socket is not registered and no close task for it was ever queued", t.ID)
+		}
+	}
+	return nil
 }
 
 func (x *runB) clis() []*cli {
@@ -283,6 +327,8 @@ func checkB(c CaseB) (v *core.Violation) {
 			if cl := x.pick(op.Sel, func(c *bcli) bool { return c.hasID && !c.answered && !c.dead }); cl != nil {
 				sv, skipped = x.answer(cl, op.Answer != "fail", op.Err)
 			}
+		case "staged":
+			sv, skipped = x.opStaged(op)
 		case "c2a":
 			sv, skipped = x.opC2A(op)
 		case "a2c":
@@ -324,6 +370,9 @@ func checkB(c CaseB) (v *core.Violation) {
 		}
 	}
 	if x.r.result() == nil {
+		if v := x.ledger(); v != nil {
+			return v
+		}
 		if ids := x.f.socketIDs(); len(ids) != 0 {
 			return core.V("b|end|socket-table-not-empty", "after every proxy was killed the socket table still holds %x", ids)
 		}
@@ -445,6 +494,191 @@ func (x *runB) opConnect(op OpB) (*core.Violation, string) {
 	return x.answer(cl, op.Answer == "ok", op.Err)
 }
 
+// opStaged: one client walks through the protocol and the operator issues a command at a
+// chosen stage of it; the client then goes on with its next step (or resets).  What HEAD does,
+// and what is expected: a command that removes the client's proxy before the request has been
+// read leaves the handler alive; the greeting is still answered (or the stream simply ends);
+// when the request arrives the socket is not kept: the stream ends without a success reply,
+// nothing stays registered, and the agent is either handed nothing or a connect task that is
+// followed by a close task.  From stage 4 on the socket is registered and kill/clear drop it
+// with a close task (the oracle of the kill step).  Commands that do not remove the client's
+// proxy (list, duplicate add, kill of another proxy) change nothing for the client.
+func (x *runB) opStaged(op OpB) (*core.Violation, string) {
+	if len(x.f.live) == 0 {
+		if _, ok := x.f.startProxy(); !ok {
+			return nil, "no-port"
+		}
+	}
+	port := x.f.live[op.Sel%len(x.f.live)]
+	tag := fmt.Sprintf("b|staged|stage=%d|cmd=%s", op.Stage, op.Cmd)
+	c0, err := dialProxy(port)
+	if err != nil {
+		return core.V("b|connect|dial-refused", "cannot connect to live proxy %s: %v", port, err), ""
+	}
+	cl := &bcli{cli: c0, proxy: port, atyp: op.Atyp, daddr: op.Addr, dport: op.Port}
+	x.clients = append(x.clients, cl)
+	if !waitFor(waitBound, func() bool { return count().handlers == 1 }) {
+		return nil, "connection-not-accepted"
+	}
+	parkedHandlers = 1
+	defer func() { parkedHandlers = 0 }()
+	gone := false // the client's proxy has been removed
+	command := func() (*core.Violation, string) {
+		switch op.Cmd {
+		case "kill", "readd":
+			v, sk := x.opKill([]string{port}, false)
+			gone = true
+			if v == nil && sk == "" && op.Cmd == "readd" {
+				if _, ok := x.f.startProxyAt(port); !ok {
+					return nil, "no-port"
+				}
+			}
+			return v, sk
+		case "clear":
+			gone = true
+			return x.opKill(append([]string(nil), x.f.live...), true)
+		case "dup-add":
+			return x.opAdd(OpB{Dup: true, Sel: op.Sel})
+		case "kill-other":
+			for _, p := range x.f.live {
+				if p != port {
+					return x.opKill([]string{p}, false)
+				}
+			}
+		}
+		return x.opList(), ""
+	}
+	// abandon: the client resets; the handler (if still there) ends; nothing may be left behind
+	finish := func(what string) (*core.Violation, string) {
+		if !cl.closed {
+			cl.closeRST()
+		}
+		cl.dead = true
+		parkedHandlers = 0
+		if !waitFor(waitBound, func() bool { return count().handlers == 0 }) {
+			return nil, "handler-still-running"
+		}
+		if cl.hasID {
+			return nil, ""
+		}
+		tasks, ok, v := x.settle()
+		if v != nil || !ok {
+			return v, "no-quiescence-after-staged-client"
+		}
+		for i, t := range tasks {
+			if t.Sub == scConnect && !x.f.hasSocket(t.ID) && !hasClose(tasks[i+1:], t.ID) {
+				return core.V(tag+"|connect-task-for-dropped-socket", "%s: the agent is handed a connect task for socket %08x, which is not registered, and no close task follows", what, t.ID), ""
+			}
+			if t.Sub == scWrite {
+				return core.V(tag+"|spurious-write", "%s: write task queued", what), ""
+			}
+		}
+		if addr := cl.addr; addr != "" {
+			if _, id, there := x.f.serverConn(addr); there {
+				x.f.a.SocksClientClose(int32(id))
+				return core.V(tag+"|socket-stays", "%s: socket %08x stays registered", what, id), ""
+			}
+		}
+		return nil, ""
+	}
+	at := func(stage int) (*core.Violation, string, bool) {
+		if op.Stage != stage {
+			return nil, "", false
+		}
+		v, sk := command()
+		if v != nil || sk != "" {
+			return v, sk, true
+		}
+		if !op.Go {
+			v, sk = finish(fmt.Sprintf("command at stage %d, then the client resets", stage))
+			return v, sk, true
+		}
+		return nil, "", false
+	}
+	// a client whose proxy is gone may find its stream ended at any later point
+	ended := func(err error) bool { return gone && err != nil }
+
+	if v, sk, stop := at(0); stop {
+		return v, sk
+	}
+	if err := cl.send(greeting(5, []byte{0}), nil); err != nil {
+		if ended(err) {
+			return finish("greeting after the proxy was removed")
+		}
+		return nil, "client-write-failed"
+	}
+	if v, sk, stop := at(1); stop {
+		return v, sk
+	}
+	rep, err := cl.recv(2, true)
+	if err != nil || rep[0] != 5 || rep[1] != 0 {
+		if ended(err) {
+			return finish("method reply after the proxy was removed")
+		}
+		cl.dead = true
+		return core.V(tag+"|method-reply", "greeting 05 01 00 answered with % x (%v)", rep, err), ""
+	}
+	if v, sk, stop := at(2); stop {
+		return v, sk
+	}
+	r := request(5, 1, 0, op.Atyp, op.Addr, op.Port)
+	half := len(r) / 2
+	if err := cl.send(r[:half], nil); err != nil && !ended(err) {
+		return nil, "client-write-failed"
+	}
+	time.Sleep(segPause)
+	if v, sk, stop := at(3); stop {
+		return v, sk
+	}
+	if _, err := cl.conn.Write(r[half:]); err != nil && !ended(err) {
+		return nil, "client-write-failed"
+	}
+	cl.written += uint64(len(r) - half)
+	if gone {
+		// the request reaches a handler whose proxy no longer exists
+		if extra, closed := cl.expectEOF(); !closed || (len(extra) >= 2 && extra[1] == 0) {
+			return core.V(tag+"|client-not-dropped", "the proxy was removed at stage %d; after the client's request it read % x, stream ended=%v", op.Stage, extra, closed), ""
+		}
+		return finish(fmt.Sprintf("request sent after the proxy was removed at stage %d", op.Stage))
+	}
+	// the proxy is still there: the connect goes through as in the connect step
+	parkedHandlers = 0
+	cl.reader = "spin"
+	tasks, ok, v := x.settle()
+	if v != nil || !ok {
+		return v, "no-quiescence-after-request"
+	}
+	if len(tasks) != 1 || tasks[0].Sub != scConnect || tasks[0].Atyp != op.Atyp || !bytes.Equal(tasks[0].Addr, op.Addr) || tasks[0].Port != op.Port {
+		cl.reader, cl.dead = "", true
+		return core.V(tag+"|connect-task", "command %s at stage %d left the client's proxy alone, but the request produced %d tasks (want one connect task for the address sent)", op.Cmd, op.Stage, len(tasks)), ""
+	}
+	cl.id, cl.hasID = tasks[0].ID, true
+	if !x.f.hasSocket(cl.id) {
+		return core.V(tag+"|table", "socket %08x of the connect task is not registered", cl.id), ""
+	}
+	if op.Stage == 4 {
+		v, sk := command()
+		if v != nil || sk != "" || cl.dead {
+			return v, sk
+		}
+		if !op.Go {
+			cl.closeRST()
+			cl.closedKind = "rst"
+			// judged when the agent answers (answer step), as for any client that closes early
+			return nil, ""
+		}
+	}
+	if v, sk := x.answer(cl, op.Answer != "fail", op.Err); v != nil || sk != "" || cl.dead {
+		return v, sk
+	}
+	if op.Stage == 5 {
+		if v, sk := command(); v != nil || sk != "" {
+			return v, sk
+		}
+	}
+	return nil, ""
+}
+
 // connectedFlag reads SocksClient.Connected of a socket after the dispatching call has
 // returned (the only writer is that call).
 func (x *runB) connectedFlag(id uint32) (present, connected bool) {
@@ -474,6 +708,7 @@ func (x *runB) answer(cl *bcli, ok bool, code uint32) (*core.Violation, string) 
 		}
 	}
 	if !ok {
+		x.ended(cl.id)
 		cl.reader, cl.dead = "gone", true
 		if !cl.closed {
 			if extra, closed := cl.expectEOF(); !closed || len(extra) != 0 {
@@ -656,6 +891,7 @@ func (x *runB) opClose(op OpB) (*core.Violation, string) {
 			return nil, ""
 		}
 		x.f.dispatch(cbClose(cl.id))
+		x.ended(cl.id)
 		cl.reader, cl.dead = "gone", true
 		if extra, closed := cl.expectEOF(); !closed || len(extra) != 0 {
 			x.retire(cl)
@@ -1060,6 +1296,14 @@ func classifyB(c CaseB) core.Class {
 			l += ":" + op.Answer
 		case "close":
 			l += ":" + op.By
+		case "staged":
+			nconn++
+			goOn := "resets"
+			if op.Go {
+				goOn = "goes-on"
+			}
+			l = fmt.Sprintf("op:staged:stage=%d:%s:%s", op.Stage, op.Cmd, goOn)
+			cl.Labels = append(cl.Labels, fmt.Sprintf("staged:stage=%d", op.Stage), "staged:cmd="+op.Cmd)
 		case "c2a", "a2c":
 			if op.Sleep {
 				l = fmt.Sprintf("op:c2a:deferred-fetch:tasks-per-fetch=%d", len(op.Chunks))
